@@ -534,6 +534,7 @@ class Database:
         self.utc_date = lambda: datetime.date(2024, 1, 1)
         self.now_ms = lambda: 0
         self.writer = None
+        self.locks = {}
         self.row_observer = None  # callable(table_name, old_row, new_row) on every row change by UPDATE
         self.coverage: Dict[str, int] = {}
         self.read_cols = None  # set() to record column reads (canonicaliser soundness check)
@@ -639,6 +640,7 @@ class Session:
         self.frames: List[Frame] = []
         self.in_tx = False
         self.undo: List[tuple] = []
+        self.held = set()
         self.row_count = -1
         self.last_insert_id = 0
         self.result_sets: List[Any] = []
@@ -646,12 +648,26 @@ class Session:
 
     # -- transactions / undo ------------------------------------------------------------
     def _log(self, entry):
-        w = self.db.writer
-        if w is not self:
-            if w is not None and w.undo:
-                raise SqlUnsupported('two sessions with uncommitted writes at once: row-lock interleavings are not modelled')
-            self.db.writer = self
+        """Record an undo entry and take the row 'lock'.  Two sessions may have uncommitted writes at the same time
+        as long as they touch different rows (InnoDB would let both proceed); touching a row another open
+        transaction has written would block in InnoDB, which is not modelled -> harness gap."""
+        if entry[0] in ('ins', 'upd', 'del'):
+            locks = self.db.locks
+            keys = [(entry[1], entry[2])] + ([(entry[1], entry[3])] if entry[0] == 'upd' else [])
+            for k in keys:
+                holder = locks.get(k)
+                if holder is not None and holder is not self and holder.undo:
+                    raise SqlUnsupported(f'row {k} written by two open transactions: row-lock waits are not modelled')
+                locks[k] = self
+                self.held.add(k)
         self.undo.append(entry)
+
+    def _release(self):
+        locks = self.db.locks
+        for k in self.held:
+            if locks.get(k) is self:
+                del locks[k]
+        self.held.clear()
 
     def _undo_to(self, mark):
         tables = self.db.store.tables
@@ -680,14 +696,12 @@ class Session:
     def commit(self):
         self.in_tx = False
         self.undo = []
-        if self.db.writer is self:
-            self.db.writer = None
+        self._release()
 
     def rollback(self):
         self._undo_to(0)
         self.in_tx = False
-        if self.db.writer is self:
-            self.db.writer = None
+        self._release()
 
     # -- entry points ------------------------------------------------------------------------
     def _parse(self, sql):
@@ -728,13 +742,11 @@ class Session:
             self.frames = []
             if implicit and not self.in_tx:
                 self.undo = []
-                if self.db.writer is self:
-                    self.db.writer = None
+                self._release()
             raise
         if implicit and not self.in_tx:
             self.undo = []
-            if self.db.writer is self:
-                self.db.writer = None
+            self._release()
         rows = None
         if self.result_sets:
             names, data, deckinds = self.result_sets[0]
